@@ -5,6 +5,7 @@ import (
 	"strings"
 	"sync"
 	"sync/atomic"
+	"time"
 
 	"github.com/fluffle/goirc/client"
 
@@ -160,7 +161,114 @@ func runC04(c *Ctx) {
 	}
 }
 
+// c04Teardown: events still in flight when the connection ends. An event that was dispatched at all - its foreground
+// handlers ran - is dispatched to the background handlers registered for it as well, exactly once, also when the
+// connection is being closed at that moment; an event that was discarded reaches nobody.
+func c04Teardown(c *Ctx, idx int, procs string) bool {
+	r := rig.Rand(c.Seed, "C04", "teardown", procs, idx)
+	s := NewSession(SessionOpts{Flood: true})
+	defer s.Release()
+	nEv := 20 + r.Intn(80)
+	nBg := 1 + r.Intn(3)
+	cause := []string{"close", "eof", "readerr"}[r.Intn(3)]
+	slow := r.Intn(3)
+	c.J.Log("CASE %s events=%d bg=%d cause=%s slow=%d", Case("teardown", idx), nEv, nBg, cause, slow)
+	var mu sync.Mutex
+	fg := map[int]int{}
+	bg := map[[2]int]int{}
+	var fgSeen int64
+	s.Conn.HandleFunc("TDN", func(_ *client.Conn, l *client.Line) {
+		ev := 0
+		fmt.Sscanf(l.Args[0], "%d", &ev)
+		mu.Lock()
+		fg[ev]++
+		mu.Unlock()
+		atomic.AddInt64(&fgSeen, 1)
+		switch slow {
+		case 1:
+			for k := 0; k < 30; k++ {
+				runtimeGosched()
+			}
+		case 2:
+			time.Sleep(100 * time.Microsecond)
+		}
+	})
+	for h := 0; h < nBg; h++ {
+		h := h
+		s.Conn.HandleBG("tdn", client.HandlerFunc(func(_ *client.Conn, l *client.Line) {
+			ev := 0
+			fmt.Sscanf(l.Args[0], "%d", &ev)
+			mu.Lock()
+			bg[[2]int{ev, h}]++
+			mu.Unlock()
+		}))
+	}
+	disc := make(chan struct{}, 1)
+	s.Conn.HandleFunc(client.DISCONNECTED, func(_ *client.Conn, l *client.Line) { disc <- struct{}{} })
+	mc, err := s.Connect()
+	if err != nil {
+		c.R.Inconcl("connect: " + err.Error())
+		return false
+	}
+	var b []byte
+	for e := 1; e <= nEv; e++ {
+		b = append(b, fmt.Sprintf(":srv TDN %d\r\n", e)...)
+	}
+	mc.SendBytes(b)
+	// end the connection once some of the events have been handled
+	target := int64(r.Intn(nEv))
+	waitUntil(func() bool { return atomic.LoadInt64(&fgSeen) >= target })
+	switch cause {
+	case "close":
+		go s.Conn.Close()
+	case "eof":
+		mc.SendEOF()
+	case "readerr":
+		mc.SendErr(nil)
+	}
+	if !waitCh(chanOf(disc)) {
+		// (a teardown that never completes is C07's subject)
+		c.R.Inconcl(fmt.Sprintf("%s: no DISCONNECTED", Case("teardown", idx)))
+		return false
+	}
+	if _, quiet := rig.WaitNoLib(WaitShort, 400); !quiet { // background dispatch goroutines included
+		c.R.Inconcl(fmt.Sprintf("%s: library goroutines still running after DISCONNECTED", Case("teardown", idx)))
+		return false
+	}
+	c.R.Eval(1)
+	mu.Lock()
+	defer mu.Unlock()
+	nDisp := 0
+	for e := 1; e <= nEv; e++ {
+		f := fg[e]
+		if f > 1 {
+			c.R.Violate(rig.Violation{Sig: "c04|teardown-fg-twice", Detail: fmt.Sprintf("event %d ran its foreground handler %d times (connection ended by %s)", e, f, cause), Case: Case("teardown", idx)})
+			return true
+		}
+		nDisp += f
+		for h := 0; h < nBg; h++ {
+			if g := bg[[2]int{e, h}]; g != f {
+				c.R.Violate(rig.Violation{Sig: "c04|teardown-bg-mismatch", Detail: fmt.Sprintf("event %d (of %d, connection ended by %s after about %d events): its foreground handler ran %d times, background handler %d of %d ran %d times", e, nEv, cause, target, f, h, nBg, g), Case: Case("teardown", idx)})
+				return true
+			}
+		}
+	}
+	c.R.Count("teardown_rounds", 1)
+	c.R.Count("events_dispatched_around_teardown", int64(nDisp))
+	return true
+}
+
 func runC04Seq(c *Ctx) {
+	for idx := 0; idx < c.Pick(40, 600); idx++ {
+		if c.Want("teardown", idx) {
+			if !c04Teardown(c, idx, c.Arg("procs", "?")) {
+				return
+			}
+			if c.R.NumViolations() > 10 {
+				return
+			}
+		}
+	}
 	histories := c.Pick(100, 1500)
 	if c.Arg("heavy", "") == "1" {
 		histories = 3000
